@@ -18,10 +18,25 @@ static mut S_SECS: [u64; N] = [0; N];
 static mut S_NANOS: [u32; N] = [0; N];
 static mut S_VAL: [f32; N] = [0.0; N];
 
+static mut S_POOL: [f32; N] = [0.0; N];
+static mut D_POOL_SECS: u64 = 0;
+static mut D_POOL_NANOS: u32 = 0;
+
+/// Draws, UP FRONT, every value the two models may hand out.  Harnesses call this first: with all
+/// nondeterminism drawn before the code under proof runs, the concrete-playback input lines up
+/// when the harness is replayed natively (where the models are not applied and the real std
+/// functions run).
 pub fn dur_reset() {
     unsafe {
         S_USED = 0;
         D_SET = false;
+        let mut i = 0;
+        while i < N {
+            S_POOL[i] = kani::any();
+            i += 1;
+        }
+        D_POOL_SECS = kani::any();
+        D_POOL_NANOS = kani::any();
     }
 }
 
@@ -40,7 +55,8 @@ pub fn as_secs_f32_model(d: &Duration) -> f32 {
             }
             i += 1;
         }
-        let v: f32 = kani::any();
+        kani::assert(S_USED < N, "verif_dur: memo table too small for this harness");
+        let v: f32 = S_POOL[if S_USED < N { S_USED } else { 0 }];
         kani::assume(v >= 0.0 && v.is_finite());
         if s == 0 && n == 0 {
             kani::assume(v == 0.0);
@@ -57,7 +73,6 @@ pub fn as_secs_f32_model(d: &Duration) -> f32 {
             }
             j += 1;
         }
-        kani::assert(S_USED < N, "verif_dur: memo table too small for this harness");
         if S_USED < N {
             S_SECS[S_USED] = s;
             S_NANOS[S_USED] = n;
@@ -79,8 +94,8 @@ pub fn from_secs_f32_model(x: f32) -> Duration {
         if D_SET && D_ARG == x {
             return Duration::new(D_SECS, D_NANOS);
         }
-        let s: u64 = kani::any();
-        let n: u32 = kani::any();
+        let s: u64 = D_POOL_SECS;
+        let n: u32 = D_POOL_NANOS;
         kani::assume(s < (1u64 << 23) && n < 1_000_000_000);
         if x == 0.0 {
             kani::assume(s == 0 && n == 0);
